@@ -293,3 +293,5 @@ MANIFEST = {
             "backward_is_total_derivative (Mathlib, HasFDerivAt/HasDerivAt) closes the analytic link for straight-line programs over ℝ with scalar nodes (one node per array element; repeated operands, fan-out and re-convergent paths): if every primitive is Fréchet-differentiable where it is applied and the edge maps are multiplication by its partial derivatives, the solution of the adjoint equations paired with the input velocities IS the derivative of the seeded terminal sum along any differentiable curve of inputs. "
             "What joins the two levels — that the Int-valued VJP arrays of the engine model's ops are those partial derivatives — is C02's subject and is checked there op by op, not inside this theorem.",
 }
+
+MANIFEST_ADDENDUM = "Also proved (Mathlib): backward_is_total_derivative — for a straight-line program over the reals with Fréchet-differentiable primitives the unique adjoint solution paired with the input velocities is the derivative of the seeded terminal sum. Oracle additions: every view's gradient against its base's exactly checked gradient; for each of ~45 op/layer families (incl. layers that store gradients themselves) L = op-term + penalties on its inputs in both orders and op-term + op-term against the separately back-propagated terms; A+B / B+A over C- and Fortran-ordered leaves with layout-dependent view chains."
